@@ -37,6 +37,22 @@ func TestC09(t *testing.T) {
 			forcedFaults = []Fault{{Kind: "flip", Path: "oo/swap.bin", Off: rapid.IntRange(0, cut-1).Draw(rt, "ooflip"), Seed: 3}}
 			Ev.Probe("old_blocks_reused_out_of_order_with_damage_in_an_earlier_block")
 		}
+		if rapid.IntRange(0, 9).Draw(rt, "readthencopy") == 0 {
+			// every block of an old file is reused by an earlier new file, a later new file is a whole
+			// copy of it, and the old file has grown
+			nb := rapid.IntRange(1, 4).Draw(rt, "rtcblocks")
+			b := Bytes(rapid.Uint64().Draw(rt, "rtcseed"), nb*BlockSize+rapid.IntRange(0, 3000).Draw(rt, "rtctail"))
+			pair.Old["rtc/b.bin"] = &Entry{Kind: KFile, Data: b}
+			pair.New["rtc/a_first.bin"] = &Entry{Kind: KFile, Data: append(Bytes(5, BlockSize), b...)}
+			pair.New["rtc/z_copy.bin"] = &Entry{Kind: KFile, Data: b}
+			if rapid.Bool().Draw(rt, "rtckeep") {
+				pair.New["rtc/b.bin"] = &Entry{Kind: KFile, Data: b}
+			}
+			pair.Old.Normalize()
+			pair.New.Normalize()
+			forcedFaults = append(forcedFaults, Fault{Kind: "extend", Path: "rtc/b.bin", N: rapid.SampledFrom([]int{1, 10, 70000}).Draw(rt, "rtcext"), Seed: 4})
+			Ev.Probe("all_blocks_read_then_whole_copy_of_extended_file")
+		}
 		dir, cleanup := RunDir()
 		defer cleanup()
 		oldDir, newDir, dmgDir, outDir := filepath.Join(dir, "old"), filepath.Join(dir, "new"), filepath.Join(dir, "dmg"), filepath.Join(dir, "out")
